@@ -484,6 +484,16 @@ fn apply_fault(ctx: &mut Ctx, plan: &Plan, arm: &ArmInfo, framing: Framing, segs
                 }
             }
         }
+        MFault::Garbage { rec, bytes } => {
+            if let Some(s) = segs.get_mut(*rec) {
+                if !s.dropped && s.bytes != *bytes {
+                    ctx.fire("M-GARBAGE");
+                    ctx.event_bytes("M-GARBAGE", bytes);
+                    s.bytes = bytes.clone();
+                    s.damaged = true;
+                }
+            }
+        }
         MFault::Pad0 { rec } => {
             if let Some(s) = segs.get_mut(*rec) {
                 if !s.dropped && s.acked {
